@@ -1,7 +1,7 @@
 """C03 - writing a NoteSequence to MIDI and reading it back preserves the music (DESIGN.md §4 C03)."""
 import ast
 
-from sa import ordr, pmfacts, nf, fold, roles, astutil as U
+from sa import ordr, pmfacts, nf, fold, roles, grouping, astutil as U
 from sa.roles import Canon
 from sa.loader import norm_text, dotted
 from sa.selftest import Mutant
@@ -58,6 +58,8 @@ def run(ctx):
   ok = pm.write_sorts_events()
   ctx.ob('ORD/pm-write-sorts', w, 'PrettyMIDI.write', ok, 'installed PrettyMIDI.write sorts events (bag accumulation into pm lists is order-insensitive)' if ok else
          'installed PrettyMIDI.write does not sort: accumulation order would reach the file', construct='PrettyMIDI.write sorts')
+  grouping.check(ctx, w0, 'GROUP/sort-refines-group-key')
+  grouping.check(ctx, r, 'GROUP/sort-refines-group-key')
   order(ctx, w0)       # the generic order analysis first: it needs no anchor, so a reshaped accumulation is still judged
   file_writer(ctx)
   groups(ctx, w, pm)
